@@ -471,6 +471,21 @@ class RepoModel(Model):
                 ff = it_.path.heap[self_ref.addr].fields
                 return new(it_, GITCONFIG, {"data": ff["gitconfig"], "has_xandikos": ff["has_xandikos"], "repo": self_ref})
             return self.method(ref, get_config, name)
+        if name == "_put_named_file":
+            def put_named_file(it_, self_ref, a, k):
+                # dulwich: GitFile(path, "wb") + write + close, i.e. <name>.lock renamed over <name>
+                # (atomic replacement); for "config" the repository's configuration becomes what
+                # those bytes parse to
+                from .configmodels import parsed_gitconfig
+
+                nm = vals.concrete_str(a[0])
+                if nm != "config" or not isinstance(a[1], VStr):
+                    raise Unsupported(f"Repo._put_named_file({nm!r}, ...)")
+                ff = it_.path.heap[self_ref.addr].fields
+                ff["gitconfig"], ff["has_xandikos"] = parsed_gitconfig(a[1].t, ff["gitconfig"])
+                it_.path.effects.append(("put_named_file", a[0]))
+                return NONE
+            return self.method(ref, put_named_file, name)
         if name == "get_description":
             return self.method(ref, lambda it_, r, a, k: F(it_, r)["description"], name)
         if name == "set_description":
@@ -687,7 +702,12 @@ class AbstractRepoModel(Model):
     def fresh(it, name="repo"):
         trees = vals.fresh("dict[str,dict[str,str]]", it.path.name(name + ".trees"))
         oid = VOpaque(it.path.const(name + ".object_store", vals.usort("ObjectStore")), "ObjectStore")
-        ref = new(it, ABS_REPO, {"trees": trees, "path": VStr(it.path.const(name + ".path", STR))})
+        P = it.path
+        ref = new(it, ABS_REPO, {"trees": trees, "path": VStr(it.path.const(name + ".path", STR)),
+                                 "gitconfig": vals.fresh("dict[bytes,bytes]", P.name(name + ".gitconfig")),
+                                 "has_xandikos": VBool(P.const(name + ".gitconfig.has_xandikos", BOOL)),
+                                 "description": VOpt(P.const(name + ".description.none", BOOL),
+                                                     VStr(P.const(name + ".description", STR), True))})
         os_ref = new(it, ABS_OBJSTORE, {"repo": ref, "oid": oid})
         it.path.heap[ref.addr].fields["object_store"] = os_ref
         return ref
@@ -740,7 +760,7 @@ def install(reg):
 
     # ---- specification vocabulary over the repository model
     def _repo(it, v):
-        if not (isinstance(v, VRef) and it.heap()[v.addr].native is REPO):
+        if not (isinstance(v, VRef) and it.heap()[v.addr].native in (REPO, ABS_REPO)):
             raise Unsupported("repository model expected")
         return F(it, v)
 
@@ -835,6 +855,12 @@ def install(reg):
     SN["repo_ncommits"] = lambda it, a, k: _repo(it, a[0])["ncommits"]
     SN["repo_gitconfig"] = lambda it, a, k: _repo(it, a[0])["gitconfig"]
     SN["repo_description"] = lambda it, a, k: _repo(it, a[0])["description"]
+
+    def repo_has_meta(it, a, k):
+        if not isinstance(a[0], VRef):
+            raise Unsupported("repository model expected")
+        return F(it, a[0])["has_xandikos"]
+    SN["repo_has_meta"] = repo_has_meta
     SN["gitconfig_data"] = lambda it, a, k: F(it, a[0])["data"]
     SN["repo_locked"] = lambda it, a, k: _repo(it, a[0])["locked"]
     SN["repo_has"] = lambda it, a, k: VBool(z3.Select(_repo(it, a[0])["store_has"], a[1].t))
